@@ -138,11 +138,11 @@ def _keyed_read(ctx, facts, adt, name, body, r, sub, props, inst):
               errs[0] if errs else '', props=props)
 
 
-@rule('CTX-READ', {
+@rule('CTX-READ', floor=11, **read_attribution({
     'C07': 'a context taken from the wrong clock either removes unseen data or misses seen data',
     'C04': 'the context returned for a member must be exactly its surviving add witnesses',
     'C05': 'the remove context of a key is its entry clock',
-}, floor=11)
+}, module=None))
 def ctx_read(ctx):
     """Every read entry point: add_clock = replica clock; rm_clock = replica clock for whole-collection reads and
     the element's witness clock (empty when absent) for per-element reads; val from the same lookup."""
